@@ -6,7 +6,7 @@ from gencheck import *
 
 def run(tier):
     C = Check('C01', tier)
-    C.prove('Properties/C01.v', bridges={'Properties/C01B.v': [], 'Model/Recover.v': []})
+    C.prove('Properties/C01.v', bridges={'Properties/C01B.v': [], 'Model/Recover.v': [], 'Properties/C02R.v': [], 'Properties/C03R.v': []})
     C.cov['tie']['protocol_code_generator + generated code'] = ('correspondence-only: real generator + generated serialize/deserialize round trips; the theorem\'s domain '
                                                                '(wire_ok, valid_obj) is decided inside Coq for every generated (spec, object) pair')
     quick = tier == 'quick'
@@ -28,6 +28,7 @@ def run(tier):
         entries.append(dict(name=t['name'], tree=t['tree'], jobs=jobs, want_sources=True))
     run_entries(C, runner, entries)
     recover_stream(C, entries, 'c01')
+    render_stream(C, entries, 'c01')
     C.cov['tie']['generated classes (structure)'] = ('translation validation: tools/gen2instr.py recovers the instruction lists of every generated serialize / deserialize / __init__ from the SOURCE TEXT (fail-closed) and Model/Recover.v compares them with elab of the same tree (vm_compute): the theorems about the elaborated instruction lists apply to the code as emitted, for all objects and bytes')
     items, metas = [], []
     for e in entries:
